@@ -118,7 +118,12 @@ static void __attribute__((noinline)) work(uint64_t seed, int rounds, struct Res
 }
 
 static atomic_int handoff_ok[MAXT];      /* child i found the value its parent had put into its thread-local storage before the start */
+/* threads started with call_with(thread, <an Array the caller goes on using>): the thread works on its own copy of the
+   arguments - what the caller does to its container after the call is none of the thread's business. The gate keeps every
+   thread from reading its arguments until the caller has finished scribbling over its containers. */
+static atomic_int args_gate;
 static var thread_main(var args) {
+  while (!atomic_load(&args_gate)) sched_yield();
   int idx = (int)c_int(get(args, $I(0)));
   { volatile int ok = 0;
     try { struct TProbe* hp = get(current(Thread), $S("handoff")); ok = (hp->canary == 0x7470726f6265LL && hp->val == 5000 + idx) ? 1 : 0; } catch (e) { ok = -1; }
@@ -159,7 +164,7 @@ int main(int argc, char** argv) {
       { static var own_locks[MAXT][2]; for (int i = 0; i < MAXT; i++) for (int q = 0; q < 2; q++) { if (!own_locks[i][q]) own_locks[i][q] = new_root(Mutex); res_thr[i].own[q] = own_locks[i][q]; } }
       for (int i = 0; i < k; i++) work(seed + (uint64_t)i, rounds, &res_alone[i], 0, i);        /* each workload alone, in main */
       for (int i = 0; i < MAXT; i++) { atomic_store(&live_by[i], 0); atomic_store(&fn_done[i], 0); }
-      atomic_store(&ticket, 0); atomic_store(&order_ticket, 0); shared_plain = 0; atomic_store(&foreign_retire, 0);
+      atomic_store(&args_gate, 0); atomic_store(&ticket, 0); atomic_store(&order_ticket, 0); shared_plain = 0; atomic_store(&foreign_retire, 0);
       var th[MAXT];
       /* Threads obtained in three ways: new, copy of another (not yet started) Thread, assign onto a fresh Thread */
       for (int i = 0; i < k; i++) {
@@ -178,8 +183,13 @@ int main(int argc, char** argv) {
       for (int i = 0; i < k; i++) {
         if (!a_idx[i]) { a_idx[i] = new_root(Int, $I(i)); a_seed[i] = new_root(Int, $I(0)); }
         ((struct Int*)a_seed[i])->val = (int64_t)(seed + (uint64_t)i);
-        call(th[i], a_idx[i], a_seed[i], a_rounds);
+        if (i % 4 == 3) {             /* an Array (or a List) as the argument pack, changed and then deleted by the caller right after the call */
+          var pack = (i % 8 == 3) ? (var)new(Array, Int, a_idx[i], a_seed[i], a_rounds) : (var)new(List, Int, a_idx[i], a_seed[i], a_rounds);
+          call_with(th[i], pack);
+          set(pack, $I(0), $I((i + 1) % k)); set(pack, $I(1), $I(12345)); set(pack, $I(2), $I(1)); pop(pack); del(pack);
+        } else call(th[i], a_idx[i], a_seed[i], a_rounds);
       }
+      atomic_store(&args_gate, 1);
       long joined[MAXT]; int64_t seen[MAXT]; long liveatjoin[MAXT];
       for (int i = 0; i < k; i++) {
         /* every second thread is joined only after its function has returned, while its teardown is still going on:
